@@ -53,8 +53,10 @@ def service_cases(tier, inst):
     for ms in P.stream_multisets(inst, 4, n, cps=(1, 2), dts=(0, 1) if tier == "thorough" else (1,), iso=True):
         if tier == "thorough" and len(ms) == 3 and any(s[3] == 0 for s in ms):
             continue
-        for labels in P.label_schemes(len(ms), 2, nested=False):
+        for li, labels in enumerate(P.label_schemes(len(ms), 2, nested=False)):
             for ui in range(len(usets)):
+                if tier == "quick" and li > 0 and ui in (2, 6, 8, 9, 10):
+                    continue
                 yield {"streams": ms, "zones": labels, "uset": ui, "inst": list(inst)}
 
 
@@ -79,6 +81,8 @@ def service_run(case, res: Result):
             outcome.append([hu, cu])
             detail = {"zone": "/".join(path), "Qh": Qh, "Qc": Qc, "hot_utilities": hu, "cold_utilities": cu}
             tag = f"u{case['uset']}"
+            if S.cold_default_decision_sign_defect(prob):
+                tag = "cold-default-decision-sign"
             if abs(sum(q for _, q in hu) - Qh) > eps:
                 res.violate("hot_sum_ne_Qh", case, detail, "hot_sum_ne_Qh:" + tag)
             if abs(sum(q for _, q in cu) - Qc) > eps:
